@@ -110,6 +110,29 @@ func genC04(seed uint64, tier string, idx int) *Plan {
 	p, g := newPlan("C04", seed, tier)
 	used := map[string]bool{}
 	nconn := 1 + g.r.intn(3)
+	var prelude *Actor
+	if g.r.chance(15) {
+		// earlier connections that died in the middle of a frame: whatever they leave behind in the server
+		// must not influence the framing of the connections that follow
+		for k := 0; k < 1+g.r.intn(3); k++ {
+			v19 := g.r.chance(50)
+			ci := g.addConn("service", v19, g.distinctPhone(v19, used))
+			p.Conns[ci].Hostile = true
+			f := g.mkFrame(ci, 0x0200, g.randSerial(), g.body(20+g.r.intn(200), g.r.intn(4)))
+			a := &Actor{Name: p.Conns[ci].Label, Conn: ci, Ops: []Op{{K: "dial"}}}
+			if prelude != nil {
+				a.Ops[0].After = &Dep{Actor: prelude.Name, N: len(prelude.Ops)}
+			}
+			if g.r.chance(50) {
+				h := g.mkFrame(ci, 0x0002, g.randSerial(), nil)
+				a.Ops = append(a.Ops, Op{K: "send", Data: h.Raw, End: true})
+			}
+			a.Ops = append(a.Ops, Op{K: "send", Data: f.Raw[:1+g.r.intn(len(f.Raw)-1)]}, Op{K: "quiet"}, Op{K: []string{"fin", "rst"}[g.r.intn(2)]}, Op{K: "quiet"})
+			p.Actors = append(p.Actors, a)
+			prelude = a
+		}
+		p.Faults = append(p.Faults, "peer.close_mid_frame")
+	}
 	for c := 0; c < nconn; c++ {
 		v19 := g.r.chance(50)
 		ci := g.addConn("service", v19, g.distinctPhone(v19, used))
@@ -123,7 +146,10 @@ func genC04(seed uint64, tier string, idx int) *Plan {
 			}
 			frames = append(frames, g.mkFrame(ci, id, g.randSerial(), g.body(g.bodyLen(max), g.r.intn(4))))
 		}
-		g.connActor(ci, frames, g.segStyle(), 15)
+		a := g.connActor(ci, frames, g.segStyle(), 15)
+		if prelude != nil {
+			a.Ops[0].After = &Dep{Actor: prelude.Name, N: len(prelude.Ops)}
+		}
 	}
 	p.Sched = g.sched()
 	p.MaxStep = 60000
@@ -233,7 +259,7 @@ func checkC04(r *Result) []Violation {
 	}
 	got := deliveredPerConn(r, "eventer")
 	for ci, frames := range r.Plan.Expect.Frames {
-		if r.Plan.Conns[ci].Server != "service" {
+		if r.Plan.Conns[ci].Server != "service" || r.Plan.Conns[ci].Hostile {
 			continue
 		}
 		// how many frames were completely delivered by the environment, and when
